@@ -127,6 +127,8 @@ func execLine(line string) (out string) {
 		res = opSerde(&fails, f, false)
 	case f[0] == "serde.ipa" && len(f) == 5:
 		res = opSerde(&fails, f, true)
+	case (f[0] == "rdpt" || f[0] == "rdsc") && len(f) == 5:
+		res = opReadField(&fails, f)
 	case f[0] == "bary.eval" && len(f) == 3:
 		res = opBaryEval(&fails, f[1], frFromHexBE(f[2]))
 	case f[0] == "bary.coeffs" && len(f) == 2:
@@ -1482,4 +1484,27 @@ func opBatchFail(fails *[]string, prog string, pos int) string {
 		}
 	}
 	return "err-unchanged"
+}
+
+func opReadField(fails *[]string, f []string) string {
+	data := mustUnhex(f[1])
+	r := &scriptedReader{data: append([]byte(nil), data...), eofWithData: f[3] == "1", failAfter: -1}
+	for _, c := range splitList(",", f[2]) {
+		r.chunks = append(r.chunks, atoi(c))
+	}
+	if f[4] != "-" {
+		r.failAfter = atoi(f[4])
+	}
+	if f[0] == "rdpt" {
+		p, err := common.ReadPoint(r)
+		if err != nil {
+			return "err"
+		}
+		return "ok " + ptHex(p) + fmt.Sprintf(" %d", r.delivered)
+	}
+	s, err := common.ReadScalar(r)
+	if err != nil {
+		return "err"
+	}
+	return "ok " + frHex(s) + fmt.Sprintf(" %d", r.delivered)
 }
